@@ -189,6 +189,21 @@ META["C19"] = {
     "require": {"quick": {"cancellations_while_pending": 20000, "task_kinds_covered": 4}, "thorough": {"task_kinds_covered": 4}},
 }
 
+META["C14"] = {
+    "title": "Conversions and completion status report the real outcome and never hang",
+    "rule": "cases = (conversion in to_future / to_stream / complete_status over Subject or SubjectThreads, script of 0..n items (quick n=4, thorough n=6) then complete / error / neither, optionally followed by a post-terminal item, with 0-2 manual polls placed before, between and after the events, polled with a counting waker). After a terminal the future/stream is polled at most twice more per element and must be ready; a poll that returned Pending before the terminal must have been woken by it; complete_status flags are compared with what the probe saw after every step and wait_for_end is called once the source has terminated. Plus the gate scenarios: a real waiter thread in wait_for_end is stopped at the hooked point of StatusFuture::poll while the producer thread runs complete()/error() (placements: terminal before the wait, inside the hooked window, after the waiter's first poll) x {complete, error}. Non-trivial: the source terminated while a poll had returned Pending, or terminated by error; distinct = hash(case).",
+    "assumptions": COMMON_ASSUME + [
+        "for 'items then error' to_future() may resolve to the error or to MultipleValues (the documentation fixes only the pure cases); it must resolve",
+        "'never hang' is read as bounded progress: ready within two polls after termination (logical); in the gate scenarios the waiter gets 20 s, and only after the logical witness (waiter reached the hooked point, producer's terminal call returned) exists; no witness + timeout = inconclusive",
+        "collect is covered by C03 (list semantics) and through to_future in random cases here",
+    ],
+    "technique": "runtime monitoring: manual polling of the real futures/streams with a counting waker against scripted Subject histories; gate orchestration on the status_window hook for the waiter/producer race",
+    "level_text": "Exploration over sampled poll/event interleavings, plus 6 orchestrated two-thread placements repeated per run.",
+    "level_note": "Trusted: counting waker, the status_window hook placement (between waker registration and flag check of StatusFuture::poll).",
+    "design_ref": "DESIGN.md §5 C14",
+    "require": {"quick": {"conversions_covered": 3, "gate_scenarios": 12}, "thorough": {"conversions_covered": 3, "gate_scenarios": 60}},
+}
+
 
 # properties without a check yet are listed here with the reason; the list shrinks as checks land
 ALL_IDS = ['C01', 'C02', 'C03', 'C04', 'C05', 'C06', 'C07', 'C08', 'C09', 'C10', 'C11', 'C12', 'C13', 'C14', 'C15', 'C16', 'C17', 'C18', 'C19', 'C20']
